@@ -26,7 +26,7 @@ RULE = ("78 builtin models (multiplicity models at several multiplicities, P@S t
 ASSUMPTIONS = ["bumps is replaced by a minimal stub of bumps.parameter (Parameter.default boxes a value)",
                "2-D data for DirectModel/bumps carry no resolution columns (dqx_data = None) so that no smearing is applied"]
 REQUIRED_MONITORS = ["interfaces_agree", "selection_matches_reference_index", "unknown_name_refused"]
-REQUIRED_BUCKETS = {"quick": ["bumps:after-simulate-data", "iface:kernel", "iface:DirectModel", "iface:keyword", "iface:sasview", "iface:bumps",
+REQUIRED_BUCKETS = {"quick": ["bumps:after-simulate-data", "bumps:attributes-rebound", "select:limits-equal-to-pixel-radii", "iface:kernel", "iface:DirectModel", "iface:keyword", "iface:sasview", "iface:bumps",
                               "dim:1d", "dim:2d", "multiplicity", "product", "array_distribution", "select:mask",
                               "select:qlimits", "select:nan", "refuse:misspelt", "refuse:foreign", "refuse:pd_suffix", "refuse:bad_attribute",
                               "dispersity-on-vector-element:1d", "refuse:repeated-on-one-object", "sasview:clone-edited",
@@ -238,6 +238,31 @@ def run_agree(case, rec):
     bm = bumps_model.Model(model, **up)
     ex_ = bumps_model.Experiment(data_for(dim, q), bm, cutoff=cutoff)
     res["bumps"] = np.array(ex_.theory(), float)
+    if k % 3 == 1:
+        # a model object whose attributes are rebound after construction (tying one model's parameter to another's,
+        # choosing another distribution type): the experiment evaluates what the model object carries now
+        from bumps.parameter import Parameter as _BP
+        bm2 = bumps_model.Model(model, **up)
+        tgt = [n_ for n_ in bm2._parameter_names if n_ in pars and not n_.endswith(("_pd", "_pd_n", "_pd_nsigma"))
+               and n_ not in ("scale", "background") and isinstance(up.get(n_, pars.get(n_)), float)]
+        tgt = [n_ for n_ in tgt if i.parameters[n_].type in ("volume", "sld", "")][:1] if tgt else []
+        up2 = dict(up)
+        for n_ in tgt:
+            newv = float(up2.get(n_, pars[n_]))*1.17 + 0.01
+            lo_, hi_ = i.parameters[n_].limits
+            if lo_ <= newv <= hi_:
+                setattr(bm2, n_, _BP(newv, name=n_))
+                up2[n_] = newv
+        bm2.scale = _BP(float(up2.get("scale", 1.0))*1.5, name="scale")
+        up2["scale"] = float(up2.get("scale", 1.0))*1.5
+        kref2 = np.asarray(direct_model.call_kernel(kern, dict(up2), cutoff=cutoff), float)
+        th2 = np.array(bumps_model.Experiment(data_for(dim, q), bm2, cutoff=cutoff).theory(), float)
+        sc2_ = float(np.nanmax(np.abs(kref2))) if np.any(np.isfinite(kref2)) else 1.0
+        ok2_ = core.close(th2, kref2, 1e-12, 1e-14*sc2_)
+        rec.check("interfaces_agree", ok2_,
+                  None if ok2_ else {"model": name, "dim": dim, "interface": "bumps Experiment on a Model whose attributes were rebound after construction",
+                                     "rebound": {n_: up2[n_] for n_ in tgt + ["scale"]}, "kernel": kref2, "other": th2})
+        rec.bucket("bumps:attributes-rebound")
     if k % 2 == 0:
         # the same experiment object used further (simulated data drawn from it, residuals asked for) still returns
         # the model intensities as its theory
@@ -352,6 +377,15 @@ def run_select(case, rec):
         sq = np.sort(qabs)
         lo_i, hi_i = max(int(0.1*n), 1), min(int(0.9*n), n - 2)
         d.qmin, d.qmax = float(0.5*(sq[lo_i - 1] + sq[lo_i])), float(0.5*(sq[hi_i] + sq[hi_i + 1]))
+        if k % 4 == 3:
+            # limits read from the data object's own |q| column (a ring selected by clicking on pixels): the pixels
+            # whose radius equals a limit belong to the selection.  The column is the object's own, so no question of
+            # how |q| is rounded arises.
+            col = np.asarray(d.q_data, float)
+            sc_ = np.sort(col)
+            d.qmin, d.qmax = float(sc_[lo_i]), float(sc_[hi_i])
+            qabs = col
+            rec.bucket("select:limits-equal-to-pixel-radii")
         index = (~d.mask) & (qabs >= d.qmin) & (qabs <= d.qmax) & ~np.isnan(z)
         qsel = [qx[index], qy[index]]
         rec.bucket("select:mask", "select:qlimits", "select:nan")
@@ -366,6 +400,22 @@ def run_select(case, rec):
     th = np.asarray(ex.theory(), float)
     ok2 = (len(th) == int(np.sum(index))) and core.close(th, ref, 1e-12, 0.0) and ex.numpoints() == int(np.sum(index))
     rec.check("selection_matches_reference_index", ok2, dict(ctx, returned_length=len(th), interface="bumps Experiment"))
+    if k % 4 == 3:
+        # more rings on the same data object, each bounded by the radii of two of its pixels
+        col = np.asarray(d.q_data, float)
+        sc_ = np.sort(col)
+        for _ring in range(8):
+            a_, b_ = sorted(int(x_) for x_ in rng.choice(n, 2, replace=False))
+            d.qmin, d.qmax = float(sc_[a_]), float(sc_[b_])
+            idx_ = (~d.mask) & (col >= d.qmin) & (col <= d.qmax) & ~np.isnan(z)
+            if not np.any(idx_):
+                continue
+            ref_ = np.asarray(direct_model.call_kernel(model.make_kernel([qx[idx_], qy[idx_]]), dict(pars)), float)
+            got_ = np.asarray(direct_model.DirectModel(d, model)(**pars), float)
+            okr = (len(got_) == int(np.sum(idx_))) and core.close(got_, ref_, 1e-12, 0.0)
+            rec.check("selection_matches_reference_index", okr,
+                      dict(ctx, ring=[d.qmin, d.qmax], selected=int(np.sum(idx_)), returned_length=len(got_),
+                           interface="DirectModel, limits equal to the radii of two pixels"))
     rec.set_shape(("select", name, k % 2, int(np.sum(index))), True)
 
 
